@@ -385,7 +385,7 @@ def build(recipe):
     return cls(**{k: _value(copy.deepcopy(v)) for k, v in kw.items()})
 
 
-def _nested_classes(recipe, acc=None):
+def _nested_classes(recipe):
     """Set of chains (tuples of class keys) from the recipe root downwards."""
     chains = set()
 
@@ -685,10 +685,6 @@ def _split(cv):
             return {k: rec(x) for k, x in sorted(v.items())}
         return v
     return rec(cv), nums
-
-
-def _kwkey(kw):
-    return {k: (v if isinstance(v, (int, float, str, bool, list, dict)) else '<obj>') for k, v in kw.items()}
 
 
 # ----------------------------------------------------------------------------- operations
